@@ -405,22 +405,24 @@ def _raw_value(p):
     return ["other", "bad"]
 
 
-def hooks_violation(v, p, path="$"):
-    """None, or (kind, path): kind in extra-field / missing-field / hook-not-applied / order"""
+def hooks_violation(v, p, path="$", via_container=False):
+    """None, or (kind, path).  The kind says which class kind ignored its metadata AND how the instance was reached:
+    `as-field` (to_dict's own recursion) or `in-container` (through encode(), inside a list / tuple / dict)."""
     k = v[0]
     if k == "dc":
         if p[0] != "dict":
             return ("dataclass-not-a-dict", path)
+        where = v[1] + (":in-container" if via_container else ":as-field")
         want = [f[0] for f in v[3] if f[1]["incl"]]
         got = [a[1] if a[0] == "str" else None for a, _ in p[2]]
         if got != want:
             extra = [g for g in got if g not in want]
             missing = [w for w in want if w not in got]
             if extra:
-                return ("to_dict-False-field-present:" + v[1], path + "." + str(extra[0]))
+                return ("to_dict-False-field-present:" + where, path + "." + str(extra[0]))
             if missing:
-                return ("field-missing", path + "." + missing[0])
-            return ("field-order", path)
+                return ("field-missing:" + where, path + "." + missing[0])
+            return ("field-order:" + where, path)
         entries = {a[1]: b for a, b in p[2]}
         for fn, meta, x in v[3]:
             if not meta["incl"]:
@@ -428,23 +430,98 @@ def hooks_violation(v, p, path="$"):
             e = entries[fn]
             if meta["enc"] is not None:
                 if e != _encf(meta["enc"], x):
-                    return ("encoding_fn-not-applied:" + v[1], path + "." + fn)
+                    # evidence of the generic branch: the entry is the plain encoding of the value
+                    return ("encoding_fn-not-applied:" + where, path + "." + fn)
             else:
-                r = hooks_violation(x, e, path + "." + fn)
+                # a plain dataclass reached through encode() has its own fields encoded by encode() too
+                r = hooks_violation(x, e, path + "." + fn, via_container and v[1] == "plain")
                 if r:
                     return r
         return None
     if k in ("list", "tup") and p[0] == "list":
         for i, (x, q) in enumerate(zip(v[1], p[1])):
-            r = hooks_violation(x, q, f"{path}[{i}]")
+            r = hooks_violation(x, q, f"{path}[{i}]", True)
             if r:
                 return r
     if k == "dict" and p[0] == "dict":
         for (_, x), (_, q) in zip(v[2], p[2]):
-            r = hooks_violation(x, q, path + "{}")
+            r = hooks_violation(x, q, path + "{}", True)
             if r:
                 return r
     return None
+
+
+_SCALARS = ("none", "bool", "int", "float", "str")
+
+
+def non_primitive(v, p, path="$", parent=None):
+    """first non-primitive node of the output p, with the input node v it stands for (None when the alignment is lost):
+    (what, path, input kind, evidence) — evidence names the code path that explains it, or None"""
+    k = p[0]
+    if k in _SCALARS:
+        return None
+    vk = v[0] if v is not None else None
+    if k == "list":
+        kids = [None] * len(p[1])
+        ctx = None
+        if vk in ("list", "tup", "set") and len(v[1]) == len(p[1]):
+            kids = list(v[1])
+        elif vk == "dict" and len(v[2]) == len(p[1]) and any(a[0] in ("tup", "list", "set", "dict", "dc") for a, _ in v[2]):
+            kids = [["__item__", a, b] for a, b in v[2]]      # encode_dict's list of (key, value) pairs
+            ctx = "dict-items"
+        for i, (x, q) in enumerate(zip(kids, p[1])):
+            r = non_primitive(x, q, f"{path}[{i}]", ctx)
+            if r:
+                return r
+        return None
+    if k == "tuple":
+        if parent == "dict-items" and v is not None and v[0] == "__item__" and len(p[1]) == 2 and p[1][0][0] == "list":
+            return ("tuple", path, "dict-with-unhashable-keys", "encode_dict-items")
+        return ("tuple", path, vk, None)
+    if k == "dict":
+        if p[1]:
+            return ("OrderedDict", path, vk, "input-is-OrderedDict" if vk == "dict" and v[1] else None)
+        vals = {}
+        if vk == "dc":
+            vals = {f[0]: (f[2] if f[1]["enc"] is None else None) for f in v[3]}
+        pairs = list(v[2]) if vk == "dict" and len(v[2]) == len(p[2]) else [None] * len(p[2])
+        for (a, b), kv in zip(p[2], pairs):
+            if a[0] not in _SCALARS:
+                return ("key:" + a[0], path, vk, None)
+            child = vals.get(a[1]) if vk == "dc" and a[0] == "str" else (kv[1] if kv is not None else None)
+            r = non_primitive(child, b, path + "." + str(a[1] if len(a) > 1 else a[0]), None)
+            if r:
+                return r
+        return None
+    return (p[1] if len(p) > 1 else k, path, vk, None)
+
+
+def same_modulo_set_order(v, p1, p2):
+    """the two outputs differ at most in the order of the lists that stand for sets of the instance"""
+    if p1 == p2:
+        return True
+    if p1[0] != p2[0] or v is None:
+        return False
+    k = p1[0]
+    if k == "list":
+        if len(p1[1]) != len(p2[1]):
+            return False
+        if v[0] == "set":
+            import json as _j
+            return sorted(_j.dumps(x, sort_keys=True) for x in p1[1]) == sorted(_j.dumps(x, sort_keys=True) for x in p2[1])
+        kids = list(v[1]) if v[0] in ("list", "tup") and len(v[1]) == len(p1[1]) else [None] * len(p1[1])
+        return all(same_modulo_set_order(x, a, b) for x, a, b in zip(kids, p1[1], p2[1]))
+    if k == "dict":
+        if p1[1] != p2[1] or len(p1[2]) != len(p2[2]):
+            return False
+        if v[0] == "dc":
+            vals = {f[0]: f[2] for f in v[3]}
+            return all(a1 == a2 and same_modulo_set_order(vals.get(a1[1]) if a1[0] == "str" else None, b1, b2)
+                       for (a1, b1), (a2, b2) in zip(p1[2], p2[2]))
+        pairs = list(v[2]) if v[0] == "dict" and len(v[2]) == len(p1[2]) else [None] * len(p1[2])
+        return all(a1 == a2 and same_modulo_set_order(kv[1] if kv else None, b1, b2)
+                   for (a1, b1), (a2, b2), kv in zip(p1[2], p2[2], pairs))
+    return False
 
 
 def judge(case, obs):
@@ -454,18 +531,7 @@ def judge(case, obs):
     if td[0] != "ok":
         return (f"to_dict-raised:{td[1]}", f"to_dict raised {td[1]}")
     p = td[1]
-    np_ = sc.first_non_prim(p)
-    if np_:
-        what = np_[0]
-        if what == "OrderedDict":
-            return ("non-primitive:OrderedDict", f"to_dict output holds an OrderedDict at {np_[1]}")
-        if what == "tuple":
-            return ("non-primitive:tuple", f"to_dict output holds a tuple at {np_[1]} (dict with unhashable encoded keys -> list of tuples)")
-        return (f"non-primitive:{what}", f"to_dict output holds a non-primitive ({what}) at {np_[1]}")
-    if not obs["json"]:
-        return ("json.dumps-rejects", "json.dumps rejects the to_dict output")
-    if not obs["yaml"]:
-        return ("yaml.safe_dump-rejects", "yaml.safe_dump rejects the to_dict output")
+    # 1. purity problems first: none of them is a listed finding, and a listed finding in the same case must not hide them
     if not obs["fresh"]:
         return ("output-aliases-input", "to_dict output shares a mutable node with the instance")
     if not obs["input_ok"]:
@@ -476,6 +542,23 @@ def judge(case, obs):
         return ("from_dict-second-decode-differs", "decoding the same dict a second time gives a different result")
     if not obs["from_fresh"]:
         return ("from_dict-aliases-argument", "the instance built by from_dict shares a mutable node with the argument")
+    # 2. only primitives
+    np_ = non_primitive(obs["val"], p)
+    if np_:
+        what, where, vk, ev = np_
+        if what == "OrderedDict":
+            if ev == "input-is-OrderedDict":
+                return ("non-primitive:OrderedDict", f"to_dict output holds an OrderedDict at {where} (the value there is an OrderedDict)")
+            return (f"non-primitive:OrderedDict:input-{vk}", f"to_dict output holds an OrderedDict at {where} where the instance holds a {vk}")
+        if what == "tuple":
+            if ev == "encode_dict-items":
+                return ("non-primitive:tuple", f"to_dict output holds a tuple at {where} (dict with unhashable encoded keys -> list of (key, value) tuples)")
+            return (f"non-primitive:tuple:input-{vk}", f"to_dict output holds a tuple at {where} where the instance holds a {vk}")
+        return (f"non-primitive:{what}", f"to_dict output holds a non-primitive ({what}) at {where}")
+    if not obs["json"]:
+        return ("json.dumps-rejects", "json.dumps rejects the to_dict output")
+    if not obs["yaml"]:
+        return ("yaml.safe_dump-rejects", "yaml.safe_dump rejects the to_dict output")
     hv = hooks_violation(obs["val"], p)
     if hv:
         return (hv[0], f"per-field metadata not honoured at {hv[1]}: {hv[0]}")
@@ -487,7 +570,10 @@ def judge(case, obs):
                 if x != want:
                     return ("decoding_fn-not-applied", f"field {fn}: from_dict did not store decoding_fn(raw)")
     if obs["twin"] is not None and obs["twin"] != td:
-        return ("equal-sets-different-output", "two == instances (sets filled in a different order) serialise differently")
+        if obs["twin"][0] == "ok" and same_modulo_set_order(obs["val"], p, obs["twin"][1]):
+            return ("equal-sets-different-output", "two == instances (sets filled in a different order) serialise differently: "
+                                                   "same elements, the lists standing for sets are ordered differently")
+        return ("equal-instances-different-output:not-a-set-order", "two == instances serialise differently, and not only in the order of set elements")
     return None
 
 
